@@ -12,7 +12,17 @@ BACKENDS = ['dict', 'file', 'filepack', 'redis']
 
 def setup(run, theorems):
     from jugverif import extract_worker as X
+    del X.DIVERGENT[:]
     paths = X.all_paths(thorough=True)    # the same (full) set in both tiers: no rebuild ping-pong between tiers
+    for shape, flags, log in X.DIVERGENT[:1]:
+        run.fail('worker-loop-does-not-end', 'the real execution_loop over the task list with dependency lists %s (flags keep-going/keep-failed/aggressive-unload = %s) does not come to an end when the '
+                 'store and the locks keep giving these answers (another worker holds a lock and never releases it, e.g. because it was killed): %s ... (%d events, still polling)'
+                 % (shape, list(flags), json.dumps(log[:14]), len(log)), {'kind': 'worker-loop-divergence', 'shape': shape, 'flags': list(flags), 'events': log[:200]})
+    run.counts['worker_loop_divergent_paths'] = len(X.DIVERGENT)
+    if X.DIVERGENT:
+        # keep the generated file small: the divergent paths (which cannot conform) and a sample of the others
+        div = [p for p in paths if not p[3] or p[3][-1][0] not in ('ret', 'raise')]
+        paths = div[:20] + [p for p in paths if p not in div][:300]
     core.write_generated('WorkerPaths', X.emit(paths))
     run.counts['worker_loop_paths_extracted'] = len(paths)
     run.counts['worker_loop_events_extracted'] = sum(len(p[3]) for p in paths)
@@ -33,6 +43,15 @@ def describe_case(P, params):
 
 def model_check(run, drv, P, c, what, params, extra_events=None, nworkers=None, flags=None):
     """trace validation: the recorded history must be accepted by the Lean transition system and end in the observed shared state"""
+    spinning = sorted(w for w, r in getattr(c, 'results', {}).items() if r == ('runaway',))
+    if spinning and extra_events is None:
+        mine = [e for e in E.to_model_events(c.trace[-60:]) if len(e) > 1 and e[1] in spinning]
+        fail_case(run, 'worker-does-not-terminate', 'workers %s never came to an end (more than 40000 scheduling steps; a legitimate run needs a few thousand): they keep polling instead of '
+                  'finishing or giving up (%s); their last events: %s' % (spinning, what, json.dumps(mine[-10:])), P, params)
+        run.count('runaway_cases')
+        if run.counts.get('runaway_cases', 0) >= 2:
+            raise core.StopCheck()
+        return None
     if drv is None:
         return None
     trace = c.trace if extra_events is None else extra_events
